@@ -543,7 +543,7 @@ def scale_of(a):
     return m if m > 0 else 1.0
 
 
-def true_band_fail(x, y, Fs, lb, ub, coded=False):
+def true_band_fail(x, y, Fs, lb, ub, coded=False, ties=True):
     """FFT coefficients of one channel by TRUE frequency (coded=True: by the frequency the odd-n grid of
     get_freqs attributes to the bin, used only to recognise the known finding);
     -> None | (bin, what, observed, required)"""
@@ -560,6 +560,8 @@ def true_band_fail(x, y, Fs, lb, ub, coded=False):
         tf = min(j, n - j) * F / (n - 1 if coded and n % 2 == 1 and n > 1 else n)
         if 0 < abs(tf - lbq) <= eps or 0 < abs(tf - ubq) <= eps:
             continue               # (an edge exactly ON a bin frequency does decide: the band is closed)
+        if (tf == lbq or tf == ubq) and not ties:
+            continue               # the series' own float rate is not the scenario's: the tie is below float resolution
         if (tf == lbq or tf == ubq) and not coded:
             # ... provided float64 can tell: the bin frequency k*step evaluated in floats (an independent
             # np.linspace) must be the exact value, otherwise the tie is below float resolution
@@ -600,6 +602,26 @@ def iir_ba_rounding(T, cfg, rec):
         return 0.0
 
 
+def iir_ill_conditioned(T, cfg, rec, extra=()):
+    """the known class C18/iir/ba-form-ill-conditioned: the rounded denominator iirdesign returned has a root on or
+    outside the unit circle, or the (b, a) realisation differs from the second-order-section realisation of the
+    same design by more than 1e-6 of the data scale (on the data of the case or on `extra` data sets)"""
+    try:
+        if rec["iirdesign"] and rec["iirdesign"][0]["res"] is not None:
+            a = rec["iirdesign"][0]["res"][1]
+            if len(a) > 1 and float(np.max(np.abs(np.roots(a)))) >= 1 - 1e-9:
+                return True
+    except Exception:  # noqa
+        pass
+    if iir_ba_rounding(T, cfg, rec) > 1e-6:
+        return True
+    for d in extra:
+        import nitime.timeseries as ts
+        if iir_ba_rounding(ts.TimeSeries(d, sampling_rate=1.0), cfg, rec) > 1e-6:
+            return True
+    return False
+
+
 def iir_spec_flipped(rec, lb, ub_is_nyq):
     """nitime's fixed clamps put the stop edge inside the pass band (scipy then designs the opposite type)"""
     if not rec["iirdesign"]:
@@ -621,6 +643,7 @@ def oracle(sc, res=None):
     ub = ub_of(cfg, T)
     ain = axis_of(T)
     n = sc["n"]
+    ties = float(T.sampling_rate) == Fs      # only then can an edge given as k*Fs/n coincide with a bin exactly
     ub_is_nyq = ub is None or bool(cfg.get("ub_nyq")) or ub == Fs / 2
     allpass = lb == 0 and ub_is_nyq
     if res is None:
@@ -637,9 +660,9 @@ def oracle(sc, res=None):
                            (method == "fir" and cfg["order"] + 1 > 3 * n) or \
                            (method == "boxcar" and cfg["iters"] == 0)
             key = "C18/%s/raises" % site
-            if method == "iir" and not expected_err and err == "ValueError" and rec["iirdesign"]:
+            if method == "iir" and not expected_err and rec["iirdesign"]:
                 e = rec["iirdesign"][0]
-                if e["res"] is not None and n <= 3 * max(len(e["res"][0]), len(e["res"][1])):
+                if err == "ValueError" and e["res"] is not None and n <= 3 * max(len(e["res"][0]), len(e["res"][1])):
                     expected_err = True      # scipy.signal.filtfilt's own precondition: len(x) > padlen
                 elif e["res"] is None and iir_spec_flipped(rec, lb, ub_is_nyq) and \
                         not (lb > 0 and ub_is_nyq and len(e["wp"]) != 1):
@@ -664,7 +687,7 @@ def oracle(sc, res=None):
         sc_ = scale_of(T.data)
         for c, (x, y) in enumerate(zip(xs, ys)):
             if abs(np.mean(y) - np.mean(x)) > 1e-9 * sc_:
-                if method == "iir" and iir_ba_rounding(T, cfg, rec) > 1e-6:
+                if method == "iir" and iir_ill_conditioned(T, cfg, rec):
                     numkey = K_IIR
                 fails.append(Fail(numkey or "C18/%s/mean" % site, "%s: mean of channel %d changed" % (site, c),
                                   float(np.mean(y)), float(np.mean(x))))
@@ -678,7 +701,7 @@ def oracle(sc, res=None):
             d = np.max(np.abs(o3.data - (a_ * out.data + b_ * o2.data)))
             # elliptic / Chebyshev recursions in (b, a) form amplify rounding: looser for iir
             if d > (1e-3 if method == "iir" else 1e-7) * sc_:
-                if method == "iir" and iir_ba_rounding(T, cfg, rec) > 1e-6:
+                if method == "iir" and iir_ill_conditioned(T, cfg, rec, extra=(z, a_ * T.data + b_ * z)):
                     numkey = K_IIR
                 fails.append(Fail(numkey or "C18/%s/linearity" % site, "%s is not linear in the data" % site, float(d), 0.0))
         # an upper edge exactly at Nyquist (given explicitly, or left behind by filtered_fourier) is no upper edge:
@@ -693,11 +716,11 @@ def oracle(sc, res=None):
                                       d, 0.0))
         if method == "fourier":
             for c, (x, y) in enumerate(zip(xs, ys)):
-                r = true_band_fail(x, y, Fs, lb, ub)
+                r = true_band_fail(x, y, Fs, lb, ub, ties=ties)
                 if r is not None:
                     # known finding only when the output is exactly what the mislabelled odd-n grid explains
                     key = "C18/filtered_fourier/band"
-                    if n % 2 == 1 and all(true_band_fail(x2, y2, Fs, lb, ub, coded=True) is None
+                    if n % 2 == 1 and all(true_band_fail(x2, y2, Fs, lb, ub, coded=True, ties=ties) is None
                                           for x2, y2 in zip(xs, ys)):
                         key = K_ODD
                     fails.append(Fail(key, "filtered_fourier n=%d Fs=%r lb=%r ub=%r channel %d bin %d: %s" % (
